@@ -62,6 +62,8 @@ COPYV = Function('copy', Val, Val)                 # copy.copy of an opaque valu
 IS_STR = Function('is_str', Val, BoolSort())
 CALLABLE = Function('callable', Val, BoolSort())
 HASHABLE = Function('hashable', Val, BoolSort())
+STARTSWITH = Function('startswith', Val, Val, BoolSort())
+ENDSWITH = Function('endswith', Val, Val, BoolSort())
 
 CLS_LIST = Const('class_list', Cls)
 CLS_TUPLE = Const('class_tuple', Cls)
@@ -282,9 +284,9 @@ class Maps:
         self.gens.append(g)
         return PList.of_const(l)
 
-    def sym_list(self, name, cls='list', tag=None, own=False):
+    def sym_list(self, name, cls='list', tag=None, own=False, **f):
         l = Const(name, Lst)
-        return SV('plist', None, pl=self.base_list(l), cls=cls, tag=tag if tag is not None else self.cls_tag(cls), own=own)
+        return SV('plist', None, pl=self.base_list(l), cls=cls, tag=tag if tag is not None else self.cls_tag(cls), own=own, **f)
 
     def base_dict(self, d):
         def g(E, J):
@@ -297,9 +299,9 @@ class Maps:
         self.gens.append(g)
         return PDict.of_const(d)
 
-    def sym_dict(self, name, cls='dict', tag=None, own=False):
+    def sym_dict(self, name, cls='dict', tag=None, own=False, **f):
         d = Const(name, Dct)
-        return SV('pdict', None, pd=self.base_dict(d), cls=cls, tag=tag if tag is not None else self.cls_tag(cls), own=own)
+        return SV('pdict', None, pd=self.base_dict(d), cls=cls, tag=tag if tag is not None else self.cls_tag(cls), own=own, **f)
 
     def mk_list(self, pl, cls='list', tag=None, own=True):
         return SV('plist', None, pl=pl, cls=cls, tag=tag if tag is not None else self.cls_tag(cls), own=own)
@@ -694,6 +696,9 @@ class Maps:
             if key is not None and key in ex.inline:
                 return ex.call_inline_expr(st, key, [recv] + list(args), kwargs)
             return self.builtin_method(ex, st, e, recv, mname, args, kwargs)
+        if recv.kind == 'val' and recv.f.get('ty') == 'str' and mname in ('startswith', 'endswith') and len(args) == 1 and args[0].kind == 'str':
+            ex.use('uninterpreted:s.%s(literal) on a symbolic string is an uninterpreted predicate' % mname)
+            return B((STARTSWITH if mname == 'startswith' else ENDSWITH)(recv.t, self.strv(args[0].lit)))
         if recv.kind == 'val' and recv.f.get('ty') == 'str' and mname == 'split' and len(args) == 1 and args[0].kind == 'str':
             ex.use('precondition:string keys contain no "%s" (dotted access walks nested mappings: outside the key universe)' % args[0].lit)
             return self.mk_list(PList.literal([recv.t]))
